@@ -155,13 +155,13 @@ Qed.
 Ltac rw := repeat match goal with
   | E : ?x = _, H : context[?x] |- _ =>
       lazymatch x with
-      | tx _ => idtac | rx _ => idtac | us _ => idtac | txq _ => idtac | pending _ => idtac
+      | tx _ => idtac | rx _ => idtac | us _ => idtac | txq _ => idtac | pending _ => idtac | active _ => idtac
       | io_set _ => idtac | closed_local _ => idtac | running _ => idtac | txset _ => idtac | rxset _ => idtac
       | nth_error _ _ => idtac
       end; rewrite E in H
   | E : ?x = _ |- context[?x] =>
       lazymatch x with
-      | tx _ => idtac | rx _ => idtac | us _ => idtac | txq _ => idtac | pending _ => idtac
+      | tx _ => idtac | rx _ => idtac | us _ => idtac | txq _ => idtac | pending _ => idtac | active _ => idtac
       | io_set _ => idtac | closed_local _ => idtac | running _ => idtac | txset _ => idtac | rxset _ => idtac
       | nth_error _ _ => idtac
       end; rewrite E
